@@ -1,4 +1,5 @@
 import MesaModel.Proofs.Legacy
+import MesaModel.Proofs.LegacyHist
 /-!
 # C18 (legacy-grid part) — a mutating call that raises leaves all observable state unchanged
 
@@ -59,6 +60,25 @@ theorem C18_legacy_step_reject_unchanged (g : Grid) (hw : 0 < g.w) (hh : 0 < g.h
   | moveToOneOf a ps sel he s =>
     simp only [step] at h ⊢; rw [moveToOneOf_err g a ps sel he s hw hh hi e h]; exact refl g
   | readEmpties => simp [step] at h
+
+/-- **a history with rejected calls behaves like the history with them deleted** (`accepted g ops` = the
+    calls of `ops` that did not raise, in order): from any state whose views agree, both histories end in
+    the same observable state, the shortened history is itself within the quantifier, and every later call
+    returns the same result after either — as if the rejected calls had never been made -/
+theorem C18_legacy_rejected_calls_deletable (g : Grid) (hw : 0 < g.w) (hh : 0 < g.h) (hi : Inv g) (ops : List Op)
+    (hok : HistOk g ops) :
+    ObsEq (run g ops) (run g (accepted g ops)) ∧ HistOk g (accepted g ops) ∧
+    ∀ op, (step (run g (accepted g ops)) op).2 = (step (run g ops) op).2 := by
+  obtain ⟨h1, h2⟩ := run_accepted ops g g hw hh hi hi rfl hok
+  refine ⟨(obsEq_iff_forget _ _).mpr h1, h2, fun op => ?_⟩
+  have i1 := (run_inv_cfg g ops hw hh hi hok).1
+  have i2 := (run_inv_cfg g (accepted g ops) hw hh hi h2).1
+  exact (step_cong op (run g ops) (run g (accepted g ops)) i1 i2 h1).1
+
+/-- non-vacuity: a history with two rejected calls; deleting them leaves four calls -/
+example : accepted (init 3 3 false false 18)
+    [.place 0 (0, 0), .place 1 (1, 1), .move 0 (1, 1), .move 0 (3, 0), .move 0 (2, 2), .remove 1]
+    = [.place 0 (0, 0), .place 1 (1, 1), .move 0 (2, 2), .remove 1] := by rfl
 
 /-- the hypotheses are satisfiable: a reachable SingleGrid state in which a move is rejected -/
 example : (step (run (init 3 3 false false 18) [.place 0 (0, 0), .place 1 (1, 1)]) (.move 0 (1, 1))).2 = .err .full := by decide
